@@ -240,12 +240,24 @@ def w3(model: Model, rep: Report):
                 and len([bp for bp in lp.extra["paths"] if bp.exit == "raise"]) == 1
         else:
             ok = c[0] == "not" and c[1][0] == "quant" and c[1][1] == "all" and c[1][2][0] == "comp"
+            if not ok and not (c[0] in ("not", "quant", "in", "and", "or") and subterms(c, lambda y: y[0] in ("quant", "in"))):
+                # neither 'not all(x in original ...)' nor a guard loop: a membership test spelled in a way this rule does not read
+                raise AnalysisError(f"reorder_indices: the rejection test [{show(c)[:120]}] is not read as a membership test over the requested items; nothing decided")
             if ok:
                 comp = c[1][2]
                 ok = len(comp[3]) == 1 and not comp[3][0][1] and comp[3][0][0] == req and comp[2][0] == "in" and comp[2][1][0] == "bound" and comp[2][2] == orig
     rep.check(ok, "C18.W3", "reorder_indices[rejects unknown]", f.loc, found=[show(p.cond) for p in raises], required="raise iff not all(item in original_order for item in specific_order)",
               what="an unknown channel in the requested order is not rejected (or a valid order is)", detail="reject")
     ok = bool(rets) and _prioritised(model, f, rets[0], orig, req, 0)
+    if not ok and rets and rets[0].value is not None:
+        v_ = rets[0].value
+        while v_[0] == "var":
+            v_ = v_[3]
+        known_shape = v_[0] in ("concat", "lin", "list", "comp", "sym") or (v_[0] == "call" and isinstance(v_[1], tuple) and v_[1][0] == "fn")
+        if v_[0] == "concat" and not all(x == req or x[0] in ("comp", "var", "list", "sym") for x in v_[1]):
+            known_shape = False
+        if not known_shape:
+            raise AnalysisError(f"reorder_indices: the result [{show(v_)[:120]}] is not read as 'requested ++ filtered original'; nothing decided")
     rep.check(ok, "C18.W3", "reorder_indices[result]", f.loc, found=show(rets[0].value) if rets else None, required="specific_order + [item for item in original_order if item not in specific_order]",
               what="rows are not 'requested channels first, then the remaining ones in their original order'", detail="result")
 
@@ -309,6 +321,8 @@ def w4(model: Model, rep: Report):
         rep.check(ok_rows, "C18.W4", "construct_visual_description[rows]", f.loc, found=show(rows) if rows else None, required="reorder_indices(unique occupied channel ids, requested order)", what="rows are not the occupied channels in the requested order", detail="rows")
         lm = d.get("channel_label_map")
         src = lm[3] if lm is not None and lm[0] == "var" else lm
+        if src is not None and src[0] not in ("dictcomp", "dict", "sym", "attr"):
+            raise AnalysisError(f"construct_visual_description: the label map [{show(src)[:120]}] is not written as a dict comprehension over the rows; nothing decided")
         ok_lm = src is not None and src[0] == "dictcomp" and len(src[3]) == 1 and not src[3][0][1] and src[3][0][0] == ("call", "enumerate", (rows,), ())
         if ok_lm:
             b = subterms(src[1], lambda y: y[0] == "bound")
